@@ -77,8 +77,11 @@ Proof. vm_compute. reflexivity. Qed.
    (harness/cmd/gofunc -> theories/Generated/Funcs.v, interpreted by theories/GoIR.v); the statements say that
    the translated source computes what the model assumes, for ALL inputs. A change of the source that alters
    the computed function breaks the proof. ---- *)
+From Coq Require Import String.
 From Cache Require Import GoIR TieRead.
 From Cache.Generated Require Import Funcs.
+Open Scope string_scope.
+Open Scope Z_scope.
 
 (* Trait.PrepareRead and TraitOf[V].PrepareRead on a found entry: value while now <= E (or E = 0), ErrExpired
    carrying the value and the stored instant after; the usage counter and the metric event as the model has them *)
@@ -104,3 +107,36 @@ Theorem C07_model_read_is_prepare_read : forall hash c s k now,
   end.
 Proof. exact b_read_is_prepare_read. Qed.
 Print Assumptions C07_model_read_is_prepare_read.
+
+From Cache Require Import TieBackend.
+
+(* Read of the three backends: ErrNotFound without touching the map under SkipRead; otherwise one lookup (inside
+   RLock/RUnlock for the sharded maps) whose verdict — found iff a resident entry carries this very key — is
+   handed to PrepareRead, whose answer is returned *)
+Theorem C07_source_read_lookup : forall skip present same err,
+  run_read fn_shardedMap_Read skip present same = Some (read_spec_sharded skip present same) /\
+  run (be_prims_of skip present same err) no_fcmp no_loop read_obs_of (fun _ => None) fn_shardedMapOf_Read be_args
+      (be_leaves present) (fun _ => None) = Some (read_spec_sharded skip present same) /\
+  run_read fn_syncMap_Read skip present true = Some (read_spec_sync skip present).
+Proof.
+  intros; split; [exact (tie_read_sharded _ _ _)|split; [exact (tie_read_sharded_of _ _ _ _)|exact (tie_read_sync _ _)]].
+Qed.
+Print Assumptions C07_source_read_lookup.
+
+(* Delete reports ErrNotFound exactly when no entry with this key is resident; otherwise it removes the entry and
+   reports one deletion *)
+Theorem C07_source_delete : forall present same,
+  (run_delete fn_shardedMap_Delete present same = Some (delete_spec_sharded present same) /\
+   run_delete fn_shardedMapOf_Delete present same = Some (delete_spec_sharded present same)) /\
+  run_delete fn_syncMap_Delete present true =
+    Some (if present then ([("LoadAndDelete", []); ("NotifyDeleted", [])], true) else ([("LoadAndDelete", [])], false)).
+Proof. intros; split; [exact (tie_delete_sharded _ _)|exact (tie_delete_sync _)]. Qed.
+Print Assumptions C07_source_delete.
+
+(* ExpireAll stamps every entry with the one instant read at the start and counts it (never-expiring entries included) *)
+Theorem C07_source_expire_all : forall start cnt,
+  (run_expire_all_body fn_shardedMap_ExpireAll start cnt = Some ([("store", [VStr "v.E"; VZ start])], Some (VZ (cnt + 1))) /\
+   run_expire_all_body fn_shardedMapOf_ExpireAll start cnt = Some ([("store", [VStr "v.E"; VZ start])], Some (VZ (cnt + 1)))) /\
+  run_expire_all_sync start cnt = Some ([("store", [VStr "cacheEntry.E"; VZ start])], Some (VZ (cnt + 1)), true).
+Proof. intros; split; [exact (tie_expire_all_sharded _ _)|exact (tie_expire_all_sync _ _)]. Qed.
+Print Assumptions C07_source_expire_all.
